@@ -216,3 +216,43 @@ def stale_index_sites(fn: ast.AST):
                         ast.unparse(n.func.value) == L and n.args and \
                         uses_i(n.args[0]):
                     yield lp, n, L, i
+
+
+def while_heads(g, fn_frame=None):
+    """[(head nop node, ast.While)] of the while loops in the graph"""
+    return [(n, n.extra['loop_head']) for n in g.nodes
+            if n.kind == 'nop' and n.extra.get('loop_head') is not None
+            and (fn_frame is None or n.frame is fn_frame)]
+
+
+def while_iteration_counts(g, head, count, cap=3):
+    """Like per_iteration_counts, for a `while` loop given by its head node:
+    possible numbers of counted events on one trip from the head back to the
+    head (trips that leave the loop are not included)."""
+    from .. import dataflow
+
+    def transfer(n, st):
+        c = count(n)
+        if not c:
+            return st
+        new = frozenset(min(cap, x + c) for x in st)
+        return {None: new, 'exc': st}
+    out = set()
+    wast = head.extra.get('loop_head')
+
+    def inside(n):
+        return n is head or any(sc.kind == 'loop' and sc.ast is wast
+                                for sc in n.scopes)
+    for l0, s0 in head.succ:
+        def tr(n, st):
+            if n is head or not inside(n):
+                return None
+            return transfer(n, st)
+        IN = dataflow.forward(g, frozenset([0]), tr, lambda a, b: a | b,
+                              start=s0)
+        for l, p in head.pred:
+            if p.id in IN and not isinstance(l, tuple):
+                st = IN[p.id]
+                c = count(p)
+                out |= set(min(cap, x + c) for x in st) if c else set(st)
+    return frozenset(out)
